@@ -213,6 +213,17 @@ fn privacy_programs() -> Vec<(String, bool, String)> {
     out.push(("mod vault {\n    fn secret() { 42.0 }\n    pub fn open() { vault::secret() + vault::secret() }\n}\nfn dsp() { vault::open() }\n".to_string(), false, "private member named twice inside its module (control)".into()));
     // control: the owner itself and a child module may use the private member
     out.push(("mod osc { fn secret(x) { x * 2.0 } pub fn open(x) { osc::secret(x) } mod detail { pub fn twice(x) { osc::secret(x) } } pub fn t(x) { osc::detail::twice(x) } }\nfn dsp() { osc::open(1.0) + osc::t(1.0) }\n".to_string(), false, "own hierarchy".into()));
+    // every REFERENCE FORM of the expression syntax has to reach the resolver as a qualified path (parser/lower.rs; seed C17o:
+    // the macro-call sugar `a::b::m!(..)` lowered to a pre-mangled name bypasses the privacy verdict)
+    let mac = "mod t {\n    #stage(macro)\n    fn secret(x) {\n        `{ $x + $x }\n    }\n    #stage(macro)\n    pub fn open(x) {\n        `{ $x * $x }\n    }\n}\n";
+    out.push((format!("{mac}fn dsp() {{\n    t::secret!(`1.0)\n}}\n"), true, "private macro through the `!` sugar with a qualified path, from the top level".to_string()));
+    out.push((format!("{mac}mod u {{\n    pub fn f() {{\n        t::secret!(`1.0)\n    }}\n}}\nfn dsp() {{ u::f() }}\n"), true, "private macro through the `!` sugar from a sibling module".to_string()));
+    out.push(("mod outer {\n    mod inner {\n        #stage(macro)\n        fn secret(x) {\n            `{ $x + $x }\n        }\n    }\n}\nfn dsp() {\n    outer::inner::secret!(`1.0)\n}\n".to_string(), true, "private macro two modules deep through the `!` sugar".to_string()));
+    out.push(("mod outer {\n    mod inner {\n        #stage(macro)\n        fn secret(x) {\n            `{ $x + $x }\n        }\n    }\n    pub fn f() {\n        inner::secret!(`1.0)\n    }\n}\nfn dsp() {\n    outer::f()\n}\n".to_string(), true, "private macro of a child module through a relative `!` path from the parent".to_string()));
+    out.push((format!("{mac}fn dsp() {{\n    t::open!(`2.0)\n}}\n"), false, "pub macro through the `!` sugar (control)".to_string()));
+    out.push((format!("{mac}fn dsp() {{\n    $(t::secret(`1.0))\n}}\n"), true, "private macro through the explicit splice form".to_string()));
+    out.push(("mod m {\n    fn secret(x) { x * 2.0 }\n    pub fn open(x) { x }\n}\nfn dsp() {\n    3.0 |> m::secret\n}\n".to_string(), true, "private function as the right-hand side of a pipe".to_string()));
+    out.push(("mod m {\n    fn secret(x) { x * 2.0 }\n    pub fn open(x) { x }\n}\nfn apply(f, x) { f(x) }\nfn dsp() {\n    apply(m::secret, 3.0)\n}\n".to_string(), true, "private function passed as a value".to_string()));
     // type-level privacy (typing.rs; seed C17n): a private TYPE of a module referenced from outside -- by its plain name (the
     // type checker finds it through the unique `$name` suffix), by a path, through `use`; a pub type stays usable
     out.push(("mod m {\n    type alias Secret = float\n    pub fn id(x) { x }\n}\nfn dsp() {\n    let x: Secret = 3.0\n    x\n}\n".to_string(), true, "private type alias by its plain name in a let annotation at the top level".to_string()));
@@ -1038,6 +1049,16 @@ fn cst_corpus() -> Vec<String> {
             out.push(format!("fn f(a:{f}){{a}}"));
         }
         tfront = next;
+    }
+    // LONG malformed inputs (seed C13o: behaviour that depends on how many errors were recorded): N broken lines of several
+    // kinds followed by a well-formed definition -- every token must still be in the tree
+    for n in [1usize, 8, 16, 17, 31, 32, 33, 64, 100, 300] {
+        for bad in [")", "}", "]", "let = =", "fn (", "1 +", "x . . y", "| |", ", ,"] {
+            let mut t = String::new();
+            for _ in 0..n { t.push_str(bad); t.push('\n'); }
+            t.push_str("fn dsp(){ 1.0 }\n");
+            out.push(t);
+        }
     }
     out
 }
